@@ -24,7 +24,10 @@ inductive Discipline where
 
 structure PState where
   prog : List (Stream × Nat)    -- remaining writes of the child: (stream, bytes still to write)
-  exited : Bool                 -- child has exited (its ends of both pipes are closed)
+  exited : Bool                 -- the write ends of both pipes are closed: the command has exited AND so has
+                                -- every descendant that inherited its streams (`prog` is everything they write;
+                                -- the recorded status is the command's own — the tie runs commands whose last
+                                -- chunk is written by a background child after the command itself has ended)
   outBuf : Nat
   errBuf : Nat
   outGot : Nat
